@@ -261,3 +261,77 @@ softmax and convolution have no closure of their own in corgi: they are composit
 (** Not yet proved at this level (MANIFEST: partial): the local identities of the matmul, unroll_blocks,
     expand_conv and sigmoid closures.  They are exercised by the correspondence and dual-number runs. *)
 """)
+
+REAL = """From Coq Require Import List Reals.
+From Coquelicot Require Import Coquelicot.
+From Corgi Require Import Lib.OptionMonad Lib.Sums Model.Scalar Model.RealScalar Model.Arr Model.SlicedOp Model.Elementwise
+     Model.Ops Proofs.ArrFacts Proofs.SpecDefs Proofs.RealDerivs.
+Import ListNotations.
+Open Scope R_scope."""
+
+TABLE["C02real"] = dict(
+    title="(scalar part) the dual-number rules are the mathematical derivatives",
+    imports=REAL,
+    intro="""Over Coq's real numbers with Coquelicot's [is_derive].  [R_ops] is the real instance of the scalar record
+(fpow recognises integer exponents, as Rust's powf does; Rpower on positive bases).  Each [d_*] theorem: for every
+curve x(t) differentiable at t0, t |-> prim (x t) is differentiable at t0 with derivative the epsilon-part of the
+primitive applied to the dual number (x t0, x').  [R_is_cring], [R_div_mul_inv], [R_inv_mul], [R_pow_two] discharge,
+for the reals, the scalar hypotheses used by Props/C02.v.  Axioms: those of the standard library's Reals
+(ClassicalDedekindReals.sig_not_dec, sig_forall_dec, functional_extensionality_dep) and Classical_Prop.classic.""",
+    items=[
+        ("C02r_ring", "R_is_cring", "the reals are a commutative ring for the scalar record"),
+        ("C02r_div", "R_div_mul_inv", "a / b = a * (1 / b)"),
+        ("C02r_inv_mul", "R_inv_mul", "1 / (a*b) = (1/a) * (1/b)"),
+        ("C02r_pow_two", "R_pow_two", "x^2 = x*x at every x"),
+        ("C02r_add", "d_fadd", "addition"), ("C02r_sub", "d_fsub", "subtraction"), ("C02r_neg", "d_fneg", "negation"),
+        ("C02r_mul", "d_fmul", "product rule"), ("C02r_divide", "d_fdiv", "quotient rule (denominator <> 0)"),
+        ("C02r_exp", "d_fexp", "exp"), ("C02r_ln", "d_fln", "ln (x > 0)"),
+        ("C02r_pow", "d_fpow", "x^e: every real e at positive base, every integer e at non-zero base, non-negative integers everywhere"),
+        ("C02r_pow_nat", "d_pow_nat", "natural exponents at every base"),
+        ("C02r_pow_neg_nat", "d_pow_neg_nat", "negative integer exponents at every non-zero base"),
+        ("C02r_sigmoid", "sigmoid_derive", "sigmoid' = sigmoid (1 - sigmoid): the factor of the sigmoid closure"),
+        ("C02r_sigmoid_dual", "sigmoid_dual", "the dual-number run of sigmoid"),
+        ("C02r_relu", "relu_derive", "relu' away from 0"),
+        ("C02r_relu_at_0", "relu_not_derivable_at_0", "relu has no derivative at 0: the closure's 0 there is a convention"),
+    ])
+
+TABLE["C07real"] = dict(
+    title="(real-number part) every softmax row is positive and sums to one",
+    imports=REAL,
+    intro="""Over Coq's real numbers; same axioms as Props/C02real.v.""",
+    items=[
+        ("C07r_softmax_rows", "softmax_rows_R", "for every well-formed array of rank >= 1: all entries > 0 and every last-dimension row sums to 1"),
+        ("C07r_softmax_row_sum", "softmax_row_sum", "the row fact on lists"),
+        ("C07r_example", "softmax_2x2", "a concrete 2x2 instance"),
+    ])
+
+PROG = """From Coq Require Import List Arith Bool.
+From Corgi Require Import Lib.OptionMonad Model.Scalar Model.Arr Model.SlicedOp Model.Elementwise Model.Linalg
+     Model.Image Model.Ops Model.Engine Proofs.ArrFacts Proofs.EngineDefs Proofs.EngineBase Proofs.AdjointSpec
+     Proofs.SweepBase Proofs.PassTheorems Proofs.OptimSpec Proofs.Ownership Model.Program.
+Import ListNotations."""
+
+TABLE["C18"] = dict(
+    title="Dropping results releases everything they held",
+    imports=PROG,
+    intro="""Ownership in the model is reachability: [roots s] are the live pool handles, the layer parameters and the model's
+output; [strong_count s b] counts root handles, child entries of nodes reachable from the roots ([creach]) and live sigmoid
+closures that hold buffer b - what Rc::strong_count of the value buffer is in Rust; [ITakeVec] (Vec::from) succeeds iff the
+count is 1.  Gradients and pending deltas are plain array values in the model, so they can hold neither a node nor a
+leaf's buffer; that this is faithful is checked by the correspondence (Vec::from after drops, with stored gradients).""",
+    items=[
+        ("C18_holders_acyclic", "creach_le", "holders form a DAG (children have smaller ids): reference counting frees exactly the unreachable part"),
+        ("C18_live_is_reachability", "live_spec", "the live set is exactly the reachability closure of the roots"),
+        ("C18_gradients_hold_nothing", "strong_count_cells_irrelevant", "the count does not depend on gradient, delta or counter cells"),
+        ("C18_pass_keeps_counts", "strong_count_backward", "a backward pass changes no ownership count (with or without stored gradients)"),
+        ("C18_clear_keeps_counts", "strong_count_clear_grad", "clearing a gradient changes no ownership count"),
+        ("C18_drop", "drop_step", "dropping a handle removes exactly that root and nothing else"),
+        ("C18_sole_owner", "sole_owner", "the general sole-owner criterion"),
+        ("C18_only_root", "only_root_sole_owner", "a leaf that is the only remaining root is the sole owner of its buffer, whatever was built and dropped before"),
+        ("C18_leaf_roots", "leaf_roots_sole_owner", "several remaining leaves: each with a buffer of its own is sole owner"),
+        ("C18_takevec", "takevec_step", "Vec::from succeeds exactly when the count is 1"),
+        ("C18_fresh_buffers", "alloc_fresh_buffer", "a new array never aliases an existing buffer (reshape excepted)"),
+        ("C18_untracked_ops_hold_nothing", "untracked_op_keeps_counts", "a result of untracked operands keeps no reference to them (C09)"),
+        ("C18_model_forward_roots", "model_forward_roots", "after forward the previous output is no longer a root"),
+        ("C18_update_fresh_params", "model_update_fresh_params", "after update every stepped parameter is a fresh childless node with a buffer of its own"),
+    ])
